@@ -547,6 +547,18 @@ func (x *fnv) collectWrites(n ast.Node, w *writeSet) {
 			}
 		case *ast.CallExpr:
 			x.noteCallWrites(nd, w)
+			// ghost variables updated by at-clauses attached to this call
+			if x.fc != nil {
+				name := types.ExprString(nd.Fun)
+				for _, at := range x.fc.Ats {
+					if at.Kind == "ghost" && at.Callee == name {
+						if w.ghosts == nil {
+							w.ghosts = map[string]bool{}
+						}
+						w.ghosts[at.Ghost] = true
+					}
+				}
+			}
 		case *ast.FuncLit:
 			// a literal defined in the loop is executed only if called; calls through variables are
 			// callbacks (no framework writes), direct calls are inlined and scanned here
@@ -787,6 +799,16 @@ func (x *fnv) havocLoop(s *State, w *writeSet, lp *loopCtx, tag string) []string
 			continue // declared inside the loop
 		}
 		s.vars[o] = x.h.freshValue(s, o.Type(), "loop_"+o.Name())
+	}
+	gnames := make([]string, 0, len(w.ghosts))
+	for g := range w.ghosts {
+		gnames = append(gnames, g)
+	}
+	sortStrings(gnames)
+	for _, g := range gnames {
+		if old, ok := s.ghost[g]; ok {
+			s.ghost[g] = x.h.freshValue(s, old.T, "loop_ghost_"+g)
+		}
 	}
 	var regions []string
 	if w.all {
